@@ -50,6 +50,53 @@ def with_defs(rng, src: str) -> str:
     return "\n".join(ls)
 
 
+TBL_CELLS = ["a", "b c", "*e*", "`c|d`", "x\\|y", "\\", "a\\\\", "", " ", "[l](u)", "![i](s)", "&amp;", "<b>", "\\|", "é", "a\tb", "\u00a0", "-", ":-:", "> q", "- i", "# h",
+             "1. o", "```", "    ", "\\\\|", "~~s~~", "<http://x.y>", "[r]", "a\\"]
+TBL_DELIMS = ["---", ":--", "--:", ":-:", "-", ":-", "-:", " --- ", "\t--\t", "", " ", "::", "-:-", ":--:", "--", "- -", "---x"]
+FIXED_T = ["a|b\n-|-\nc|d\n", "|a|b|\n|--|:-:|\n|c|\n|d|e|f|\n\npara\n", "a|b\n-|-\n", "a|b\n-|-", "a|b\n- |-\n", "a\n-|-\n", "|a|\n|-|\n> q\n", "|a|\n|-|\n- l\n", "|a|\n|-|\n# h\n",
+           "|a|\n|-|\n    code\n", "para\n|a|\n|-|\n", "para\na|b\n-|-\nc\n", "> a|b\n> -|-\n> c|d\ne|f\n", "- a|b\n  -|-\n  c|d\n e|f\n", "a\\|b|c\n-|-\n", "|a\\\\|b|\n|-|-|\n", "| |\n|-|\n", "||\n|-|\n",
+           "a|b\n-||-\n", "a|b\n-|-|\n", "a|b\n|-|-\nx\n\ny\n", "[r]: /u\na|b\n-|-\n", "a|b\n:-|-:\n```\nf\n```\n", "a|b\n-|-\n<div>\n", "a|b\n-|-\n***\n", "    a|b\n-|-\n", "a|b\n    -|-\n", "a|b\n-|-\n \nz\n",
+           "t\n===\na|b\n-|-\n", "a|b\n-|-\nc|d\n===\n", "|\n-|\n", "a|\n-|\n", "|a\n|-\n", "a|b\n--\n", "-|-\n-|-\n-|-\n", "a|b\n\t-|-\n", "\u00a0|a|\u00a0\n|-|\n\u00a0|b\u00a0\n"]
+
+
+def rand_table(rng) -> list[str]:
+    """a table-shaped group of lines: header row, delimiter row (sometimes invalid), body rows with missing / surplus cells"""
+    n = rng.randint(1, 4)
+    def row(k):
+        cells = [rng.choice(TBL_CELLS) for _ in range(k)]
+        lead = rng.choice(["|", "", "| ", " |", "|"])
+        trail = rng.choice(["|", "", " |", "| ", "|"])
+        sep = rng.choice(["|", " | ", "| ", " |"])
+        r = lead + sep.join(cells) + trail
+        return r if (r.strip() or rng.random() < 0.2) else "|"
+    drow_n = n if rng.random() < 0.85 else rng.randint(1, 5)
+    delim = rng.choice(["|", "", "| "]) + rng.choice(["|", " | ", "|"]).join(rng.choice(TBL_DELIMS[:10] if rng.random() < 0.85 else TBL_DELIMS) for _ in range(drow_n)) + rng.choice(["|", "", " |"])
+    out = [row(n), delim]
+    for _ in range(rng.randint(0, 4)):
+        out.append(row(n if rng.random() < 0.6 else rng.randint(0, 6)))
+    return out
+
+
+def with_tables(rng, src: str) -> str:
+    """table groups spliced into a document: at top level, inside containers (with and without the continuation prefix), directly after
+    paragraph lines (the table rule as a terminator), followed by terminators"""
+    ls = src.split("\n")
+    for _ in range(rng.randint(1, 2)):
+        t = rand_table(rng)
+        pre = rng.choice(["", "", "", "", "> ", "- ", "  ", "   ", "    ", "1. ", "> - ", "\t"])
+        cont = {"> ": rng.choice(["> ", "> ", ">", ""]), "- ": rng.choice(["  ", "  ", " ", ""]), "1. ": "   ", "> - ": rng.choice([">   ", "> ", ""])}.get(pre, pre if rng.random() < 0.7 else "")
+        block = [pre + t[0]] + [cont + x for x in t[1:]]
+        if rng.random() < 0.3:
+            block.append(cont + rng.choice(["> q", "- l", "# h", "```", "***", "<div>", "    c", "", " ", "text", "[x]: /y", "==="]))
+        at = rng.randint(0, len(ls))
+        if rng.random() < 0.5:
+            block.append("")
+        if rng.random() < 0.4:
+            block.insert(0, "")
+        ls[at:at] = block
+    return "\n".join(ls)
+
+
 def rand_full(rng) -> str:
     k = rng.random()
     base = rand_more(rng) if k < 0.3 else rand_l(rng) if k < 0.5 else rand_q(rng) if k < 0.65 else gens.struct_doc(rng, 2) if k < 0.85 \
@@ -71,7 +118,9 @@ def rand_full(rng) -> str:
     return s
 
 
-def tie_full(ctx: Ctx, drv: Driver, n: int, ref: bool = False, render: bool = False) -> None:
+def tie_full(ctx: Ctx, drv: Driver, n: int, ref: bool = False, render: bool = False, table: bool = False) -> None:
+    """`table=True` (implies `ref`): all eleven block rules — driver `fullparset`, documents with table groups spliced in"""
+    ref = ref or table
     from markdown_it import MarkdownIt
     from markdown_it.common import normalize_url as nu
     from markdown_it.common.utils import normalizeReference
@@ -105,6 +154,9 @@ def tie_full(ctx: Ctx, drv: Driver, n: int, ref: bool = False, render: bool = Fa
             src = FIXED[it] if it < len(FIXED) else rand_full(rng)
             if ref:
                 src = FIXED_R[it] if it < len(FIXED_R) else with_defs(rng, src)
+            if table:
+                src = FIXED_T[it] if it < len(FIXED_T) else with_tables(rng, src) if rng.random() < 0.9 else src
+            table_on = table and (it < len(FIXED_T) or rng.random() < 0.85)
             ref_on = ref and rng.random() < 0.9
             idefs = ref and rng.random() < 0.3
             if "\x00" in src and rng.random() < 0.5:
@@ -120,7 +172,7 @@ def tie_full(ctx: Ctx, drv: Driver, n: int, ref: bool = False, render: bool = Fa
             xh, brk, lp = rng.random() < 0.5, rng.random() < 0.3, rng.choice(["language-", "language-", "lang-", "", "x y-"])
             ropts = {"xhtmlOut": xh, "breaks": brk, "langPrefix": lp} if render else {}
             md = MarkdownIt("zero", {"maxNesting": mn, "html": html_on, "store_labels": store, "inline_definitions": idefs, **ropts})
-            md.enable(["blockquote", "list"] + [MORE_NAMES[j] for j in range(6) if bits >> (5 - j) & 1] + (["reference"] if ref_on else []))
+            md.enable(["blockquote", "list"] + [MORE_NAMES[j] for j in range(6) if bits >> (5 - j) & 1] + (["reference"] if ref_on else []) + (["table"] if table_on else []))
             en = [INLINE_NAMES[c] for c in rs if c in INLINE_NAMES]
             if en:
                 md.enable(en)
@@ -175,12 +227,14 @@ def tie_full(ctx: Ctx, drv: Driver, n: int, ref: bool = False, render: bool = Fa
             rh = {k: v["href"] for k, v in seeded.items()}
             rt = {k: v["title"] for k, v in seeded.items() if v["title"]}
             req = f"fullparser {bits:06b}{1 if html_on else 0}{1 if ref_on else 0}{1 if idefs else 0}" if ref else f"fullparse {bits:06b}{1 if html_on else 0}"
+            if table:
+                req = f"fullparset {bits:06b}{1 if html_on else 0}{1 if ref_on else 0}{1 if idefs else 0}{1 if table_on else 0}"
             if render:
                 req = f"fullrender {1 if xh else 0} {1 if brk else 0} {enc(lp)} {bits:06b}{1 if html_on else 0}{1 if ref_on else 0}{1 if idefs else 0}"
             lines.append(f"{req} {mn} {rs or '-'} {1 if fj else 0} {1 if inl else 0} {1 if tj else 0} {pairs(ents)} "
                          f"{pairs(seen_norm)} {pairs(seen_text)} {1 if has_refs else 0} {1 if store else 0} {pairs(rh)} {pairs(rt)} {pairs(seen_ref)} {enc(src)}")
             exp.append(e)
-            meta.append((src, bits, html_on, mn, rs, fj, inl, tj, has_refs, store, sorted(refs)))
+            meta.append((src, bits, html_on, mn, rs, fj, inl, tj, has_refs, store, sorted(refs), ref_on, idefs, table_on))
     finally:
         linkmod.normalizeReference = orig_norm
         imgmod.normalizeReference = orig_norm
@@ -191,17 +245,19 @@ def tie_full(ctx: Ctx, drv: Driver, n: int, ref: bool = False, render: bool = Fa
     bad = 0
     for e, g, m in zip(exp, got, meta):
         ctx.corr_compared += 1
-        for ty in ("link_open", "image", "em_open", "code_inline", "html_block", "blockquote_open", "bullet_list_open", "heading_open"):
+        for ty in ("link_open", "image", "em_open", "code_inline", "html_block", "blockquote_open", "bullet_list_open", "heading_open", "table_open", "tbody_open"):
             if enc(ty) + "|" in e:
                 kinds[ty] = kinds.get(ty, 0) + 1
         if e.strip() != g.strip():
             bad += 1
             if bad <= 5:
-                ctx.mismatch("MarkdownIt.parse end to end (modelled sub-language" + (", with the reference rule" if ref else "") + (", rendered to HTML" if render else "") + "): implementation and model differ",
+                ctx.mismatch("MarkdownIt.parse end to end (modelled sub-language" + (", all eleven block rules" if table else ", with the reference rule" if ref else "") + (", rendered to HTML" if render else "") + "): implementation and model differ",
                              {"input": m[0], "block_enabled": ["blockquote", "list"] + [MORE_NAMES[j] for j in range(6) if m[1] >> (5 - j) & 1],
-                              "html": m[2], "maxNesting": m[3], "inline_rules": m[4], "fragments_join": m[5], "inline": m[6], "text_join": m[7],
+                              "reference": m[11], "inline_definitions": m[12], "table": m[13], "html": m[2], "maxNesting": m[3], "inline_rules": m[4], "fragments_join": m[5], "inline": m[6], "text_join": m[7],
                               "has_refs": m[8], "store_labels": m[9], "refs": m[10], "impl": e[:700], "model": g[:700]})
-    if render:
+    if table:
+        ctx.cov["full_parse_table_tie"] = {"documents": len(lines), "documents_with": kinds, "documents_recording_definitions": ndefs}
+    elif render:
         ctx.cov["full_render_tie"] = {"documents": len(lines), "documents_with": kinds}
     elif ref:
         ctx.cov["full_parse_ref_tie"] = {"documents": len(lines), "documents_with": kinds, "documents_recording_definitions": ndefs}
